@@ -1,10 +1,16 @@
 //! The battery: types deriving `swimos_form::Form` that cover the supported attribute
 //! combinations, with finite instance enumerators (cartesian products of small value pools).
 
+use chrono::{TimeZone, Utc};
 use num_bigint::{BigInt, BigUint};
 use std::collections::HashMap;
 use std::fmt::Debug;
+use std::num::NonZeroUsize;
+use std::sync::Arc;
+use std::time::Duration;
 use swimos_form::{Form, Tag};
+use swimos_model::{Attr, Blob, Item, Text, Timestamp, Value};
+use swimos_utilities::future::{Quantity, RetryStrategy};
 
 /// A battery type. `instances` enumerates every instance with field values from the pools;
 /// `normal` is what a faithful read of the written form must produce (identity unless the type
@@ -17,6 +23,11 @@ pub trait Battery: Form + Clone + PartialEq + Debug + Send + Sync + 'static {
     /// keeps the last of several entries with the same key, which is not counted as dropping
     /// information.
     const MAP_PATHS: &'static [&'static str] = &[];
+    /// Canonical paths of sub-values read by the hand-written, deliberately lenient recognizers
+    /// of the configuration types (`Duration`, `RetryStrategy`: missing fields take defaults,
+    /// repeated fields overwrite); they are excluded from the "accepted input is a re-spelling
+    /// of the model" comparison (the round-trip laws still cover them).
+    const OPAQUE_PATHS: &'static [&'static str] = &[];
     fn instances(p: &Pools) -> Vec<Self>;
     fn normal(&self) -> Self {
         self.clone()
@@ -116,10 +127,14 @@ macro_rules! battery {
         battery!($ty, $name, $covers, maps = [], |$p, $out| $body);
     };
     ($ty:ty, $name:expr, $covers:expr, maps = [$($m:expr),*], |$p:ident, $out:ident| $body:block) => {
+        battery!($ty, $name, $covers, maps = [$($m),*], opaque = [], |$p, $out| $body);
+    };
+    ($ty:ty, $name:expr, $covers:expr, maps = [$($m:expr),*], opaque = [$($o:expr),*], |$p:ident, $out:ident| $body:block) => {
         impl Battery for $ty {
             const NAME: &'static str = $name;
             const COVERS: &'static str = $covers;
             const MAP_PATHS: &'static [&'static str] = &[$($m),*];
+            const OPAQUE_PATHS: &'static [&'static str] = &[$($o),*];
             #[allow(unused_variables, unused_mut)]
             fn instances($p: &Pools) -> Vec<Self> {
                 let mut $out: Vec<Self> = vec![];
@@ -582,3 +597,225 @@ pub struct EnumHolder {
     pub u: Unit0,
 }
 battery!(EnumHolder, "EnumHolder", "enum as slot and attr, unit struct as header_body (nesting)", |p, out| { cart!(out; e in p.inner::<E1>(8, 100), e2 in p.inner::<E1>(8, 100); EnumHolder { e, e2, u: Unit0 }); });
+
+// ------------------------------------------------------------------ generic model (`Value`) fields
+
+fn atoms_small() -> Vec<Value> {
+    vec![Value::Extant, Value::Int32Value(1), Value::text("a"), Value::BooleanValue(true)]
+}
+
+/// Model values used as field values of type `Value`.
+pub fn field_values() -> Vec<Value> {
+    let mut v = atoms_small();
+    v.push(Value::Record(vec![], vec![]));
+    v.push(Value::Record(vec![], vec![Item::ValueItem(Value::Int32Value(1))]));
+    v.push(Value::Record(vec![], vec![Item::ValueItem(Value::Int32Value(1)), Item::ValueItem(Value::text("b"))]));
+    v.push(Value::Record(vec![], vec![Item::Slot(Value::text("k"), Value::Int32Value(1))]));
+    v.push(Value::Record(vec![], vec![Item::Slot(Value::text("k"), Value::Int32Value(1)), Item::ValueItem(Value::Int32Value(2))]));
+    v.push(Value::Record(vec![Attr::of("t")], vec![]));
+    v.push(Value::Record(vec![Attr::of(("t", Value::Int32Value(1)))], vec![Item::Slot(Value::text("k"), Value::Int32Value(1))]));
+    v.push(Value::Record(vec![Attr::of("t"), Attr::of("u")], vec![Item::ValueItem(Value::Int32Value(1))]));
+    v.push(Value::Record(vec![], vec![Item::ValueItem(Value::Extant)]));
+    v.push(Value::Record(vec![], vec![Item::ValueItem(Value::Record(vec![], vec![]))]));
+    v
+}
+
+#[derive(Form, Debug, PartialEq, Clone)]
+pub struct ValSlot {
+    pub v: Value,
+    pub x: i32,
+}
+battery!(ValSlot, "ValSlot", "Value as slot", |p, out| { cart!(out; v in field_values(), x in [0, 1]; ValSlot { v, x }); });
+
+#[derive(Form, Debug, PartialEq, Clone)]
+pub struct ValBody {
+    pub h: i32,
+    #[form(body)]
+    pub b: Value,
+}
+battery!(ValBody, "ValBody", "Value as body", |p, out| { cart!(out; h in [0, 1], b in field_values(); ValBody { h, b }); });
+
+#[derive(Form, Debug, PartialEq, Clone)]
+pub struct ValAttr {
+    #[form(attr)]
+    pub a: Value,
+    pub x: i32,
+}
+battery!(ValAttr, "ValAttr", "Value as attr", |p, out| { cart!(out; a in field_values(), x in [0, 1]; ValAttr { a, x }); });
+
+#[derive(Form, Debug, PartialEq, Clone)]
+pub struct ValHdrBody {
+    #[form(header_body)]
+    pub hb: Value,
+    pub x: i32,
+}
+battery!(ValHdrBody, "ValHdrBody", "Value as header_body", |p, out| { cart!(out; hb in field_values(), x in [0, 1]; ValHdrBody { hb, x }); });
+
+#[derive(Form, Debug, PartialEq, Clone)]
+pub struct ValHdr {
+    #[form(header_body)]
+    pub hb: i32,
+    #[form(header)]
+    pub h: Value,
+    pub x: i32,
+}
+battery!(ValHdr, "ValHdr", "Value as header slot after a header_body", |p, out| { cart!(out; hb in [0, 1], h in field_values(), x in [0, 1]; ValHdr { hb, h, x }); });
+
+#[derive(Form, Debug, PartialEq, Clone)]
+pub enum ValEnum {
+    #[form(tag = "event")]
+    Event {
+        #[form(header)]
+        node: String,
+        #[form(body)]
+        body: Value,
+    },
+    #[form(tag = "command")]
+    Command(#[form(header_body)] Value, #[form(body)] Option<Value>),
+}
+battery!(ValEnum, "ValEnum", "envelope-like enum: header + Value body, header_body Value + Option<Value> body", |p, out| {
+    cart!(out; node in ["".to_string(), "/n".to_string()], body in field_values(); ValEnum::Event { node, body });
+    let mut opts: Vec<Option<Value>> = vec![None];
+    opts.extend(atoms_small().into_iter().map(Some));
+    opts.push(Some(Value::Record(vec![], vec![])));
+    opts.push(Some(Value::Record(vec![Attr::of("t")], vec![Item::Slot(Value::text("k"), Value::Int32Value(1))])));
+    cart!(out; hb in atoms_small(), b in opts; ValEnum::Command(hb, b));
+});
+
+// ------------------------------------------------------------------ built-in Form implementations
+
+pub fn durations() -> Vec<Duration> {
+    vec![Duration::new(0, 0), Duration::new(1, 0), Duration::new(1, 500_000_000), Duration::new(u64::MAX, 999_999_999)]
+}
+
+pub fn timestamps() -> Vec<Timestamp> {
+    [(0i64, 0u32), (1, 0), (1, 500_000_000), (-1, 0), (-2, 250_000_000), (1_600_000_000, 123_456_000)]
+        .iter()
+        .map(|(s, n)| Timestamp::from(Utc.timestamp_opt(*s, *n).unwrap()))
+        .collect()
+}
+
+pub fn retries() -> Vec<RetryStrategy> {
+    let nz = |n: usize| NonZeroUsize::new(n).unwrap();
+    vec![
+        RetryStrategy::none(),
+        RetryStrategy::default_immediate(),
+        RetryStrategy::immediate(nz(1)),
+        RetryStrategy::immediate(nz(7)),
+        RetryStrategy::default_interval(),
+        RetryStrategy::interval(Duration::new(0, 0), Quantity::Finite(nz(1))),
+        RetryStrategy::interval(Duration::new(1, 500_000_000), Quantity::Infinite),
+        RetryStrategy::default_exponential(),
+        RetryStrategy::exponential(Duration::new(1, 0), Quantity::Finite(Duration::new(2, 1))),
+        RetryStrategy::exponential(Duration::new(0, 0), Quantity::Infinite),
+    ]
+}
+
+#[derive(Form, Debug, PartialEq, Clone)]
+pub struct Builtins {
+    pub d: Duration,
+    pub t: (i32, String),
+    pub a: Arc<Named>,
+    pub u: usize,
+    pub n: NonZeroUsize,
+    pub txt: Text,
+    pub bl: Blob,
+    pub unit: (),
+}
+battery!(Builtins, "Builtins", "Duration, tuple, Arc, usize, NonZeroUsize, Text, Blob, ()", maps = [], opaque = ["d:/"], |p, out| {
+    cart!(out; d in durations(), t in [(0, "".to_string()), (-2, "b c".to_string())], a in p.inner::<Named>(2, 2), u in [0usize, usize::MAX],
+        n in [NonZeroUsize::new(1).unwrap(), NonZeroUsize::new(usize::MAX).unwrap()], txt in [Text::new(""), Text::new("a b")], bl in [Blob::from_vec(vec![]), Blob::from_vec(vec![0, 255])];
+        Builtins { d, t, a: Arc::new(a), u, n, txt, bl, unit: () });
+});
+
+#[derive(Form, Debug, PartialEq, Clone)]
+pub struct BuiltinPlaces {
+    #[form(header_body)]
+    pub d: Duration,
+    #[form(attr)]
+    pub t: (i32, String),
+    #[form(header)]
+    pub r: RetryStrategy,
+    #[form(attr)]
+    pub unit: (),
+    pub ts: Timestamp,
+}
+battery!(BuiltinPlaces, "BuiltinPlaces", "Duration header_body, tuple attr, RetryStrategy header, () attr, Timestamp slot", maps = [], opaque = ["@BuiltinPlaces/item[0]/", "@BuiltinPlaces/r:/"], |p, out| {
+    cart!(out; d in durations(), t in [(0, "".to_string()), (-2, "b c".to_string())], r in retries(), ts in timestamps(); BuiltinPlaces { d, t, r, unit: (), ts });
+});
+
+#[derive(Form, Debug, PartialEq, Clone)]
+pub struct NestedColls {
+    pub vv: Vec<Vec<i32>>,
+    pub ov: Option<Vec<i32>>,
+    pub mv: HashMap<String, Vec<i32>>,
+    #[form(attr)]
+    pub ou: Option<Unit0>,
+    pub os: Option<Unit0>,
+}
+battery!(NestedColls, "NestedColls", "Vec<Vec>, Option<Vec>, HashMap<_, Vec>, Option<unit struct>", maps = ["mv:/"], |p, out| {
+    let m = |kv: &[(&str, Vec<i32>)]| kv.iter().map(|(k, v)| (k.to_string(), v.clone())).collect::<HashMap<_, _>>();
+    cart!(out; vv in [vec![], vec![vec![]], vec![vec![1], vec![]], vec![vec![1, 2], vec![3]]], ov in [None, Some(vec![]), Some(vec![1])],
+        mv in [m(&[]), m(&[("a", vec![])]), m(&[("a", vec![1]), ("b", vec![])])], ou in [None, Some(Unit0)], os in [None, Some(Unit0)];
+        NestedColls { vv, ov, mv, ou, os });
+});
+
+macro_rules! builtin_battery {
+    ($ty:ty, $name:expr, maps = [$($m:expr),*], $pool:expr) => {
+        builtin_battery!($ty, $name, maps = [$($m),*], opaque = [], $pool);
+    };
+    ($ty:ty, $name:expr, maps = [$($m:expr),*], opaque = [$($o:expr),*], $pool:expr) => {
+        impl Battery for $ty {
+            const NAME: &'static str = $name;
+            const COVERS: &'static str = "built-in Form implementation, top level";
+            const MAP_PATHS: &'static [&'static str] = &[$($m),*];
+            const OPAQUE_PATHS: &'static [&'static str] = &[$($o),*];
+            fn instances(p: &Pools) -> Vec<Self> {
+                let _ = p;
+                $pool(p)
+            }
+        }
+    };
+}
+
+builtin_battery!(i32, "i32", maps = [], |p: &Pools| p.i32s());
+builtin_battery!(u64, "u64", maps = [], |p: &Pools| p.u64s());
+builtin_battery!(f64, "f64", maps = [], |p: &Pools| p.f64s());
+builtin_battery!(String, "String", maps = [], |p: &Pools| p.strings());
+builtin_battery!(BigInt, "BigInt", maps = [], |p: &Pools| p.bigints());
+builtin_battery!(BigUint, "BigUint", maps = [], |p: &Pools| p.biguints());
+builtin_battery!(Vec<u8>, "Vec<u8>", maps = [], |p: &Pools| p.blobs());
+builtin_battery!(Vec<i32>, "Vec<i32>", maps = [], |p: &Pools| p.vec_i32s());
+builtin_battery!(Option<i32>, "Option<i32>", maps = [], |p: &Pools| p.opt_i32s());
+builtin_battery!(Option<Named>, "Option<Named>", maps = [], |p: &Pools| { let mut v = vec![None]; v.extend(p.inner::<Named>(3, 3).into_iter().map(Some)); v });
+builtin_battery!(HashMap<String, i32>, "HashMap<String,i32>", maps = [""], |p: &Pools| p.maps());
+builtin_battery!((i32, String), "(i32,String)", maps = [], |p: &Pools| { let mut v = vec![]; for a in p.i32s() { for b in p.strings() { v.push((a, b.clone())); } } v });
+builtin_battery!(Duration, "Duration", maps = [], opaque = [""], |_p: &Pools| durations());
+builtin_battery!(Timestamp, "Timestamp", maps = [], |_p: &Pools| timestamps());
+builtin_battery!(RetryStrategy, "RetryStrategy", maps = [], opaque = [""], |_p: &Pools| retries());
+builtin_battery!(Vec<Named>, "Vec<Named>", maps = [], |p: &Pools| { let n = p.inner::<Named>(3, 3); vec![vec![], vec![n[0].clone()], vec![n[1].clone(), n[2].clone()]] });
+
+/// The generic model itself (its Recon text fidelity is C09's subject; here: MessagePack and the
+/// reading paths).
+impl Battery for Value {
+    const NAME: &'static str = "Value";
+    const COVERS: &'static str = "the generic model type";
+    fn instances(p: &Pools) -> Vec<Self> {
+        let mut v = field_values();
+        v.push(Value::Int64Value(i64::MAX));
+        v.push(Value::UInt64Value(u64::MAX));
+        v.push(Value::Float64Value(1.5));
+        v.push(Value::Data(Blob::from_vec(vec![0, 255])));
+        v.push(Value::BigInt(BigInt::from(-2).pow(71)));
+        v.push(Value::BigUint(BigUint::from(2u32).pow(70)));
+        // one level of nesting: every field value as an attribute body, a slot value and a slot key
+        for f in field_values() {
+            v.push(Value::Record(vec![Attr::of(("t", f.clone()))], vec![]));
+            v.push(Value::Record(vec![], vec![Item::Slot(Value::text("k"), f.clone())]));
+            v.push(Value::Record(vec![], vec![Item::Slot(f.clone(), Value::Int32Value(1))]));
+            v.push(Value::Record(vec![Attr::of("t")], vec![Item::ValueItem(f.clone()), Item::ValueItem(f)]));
+        }
+        let _ = p;
+        v
+    }
+}
